@@ -218,12 +218,12 @@ void check_pristine_compiler(BaseCompiler& cc, const char* when) {
   SIM_CHECK(cc.first_node() == nullptr || cc.first_node() == cc.cursor() || true, "c16:residue-nodes", "%s", when);
 }
 
-struct Knobs { size_t arena_block, code_buffer; int junk, realloc_policy, shift; };
+struct Knobs { size_t arena_block, code_buffer; int junk, realloc_policy, shift, placement; };
 
 Knobs knobs_from(Rng& r) {
   static const size_t blocks[] = {0, 1024, 2048, 4096, 16384, 65536};
   static const size_t bufs[] = {0, 0, 32, 64, 128, 256, 1024};
-  Knobs k; k.arena_block = r.pick(blocks); k.code_buffer = r.pick(bufs); k.junk = int(r.below(4)); k.realloc_policy = int(r.below(2)); k.shift = int(r.below(6));
+  Knobs k; k.arena_block = r.pick(blocks); k.code_buffer = r.pick(bufs); k.junk = int(r.below(4)); k.realloc_policy = int(r.below(2)); k.shift = int(r.below(6)); k.placement = int(r.below(2));
   return k;
 }
 
@@ -231,6 +231,7 @@ void apply_knobs(const Knobs& k, uint64_t seed) {
   sim::set_knob_arena_block(k.arena_block);
   sim::set_knob_code_buffer(k.code_buffer);
   sim::heap::configure(k.junk, k.realloc_policy, k.shift, seed);
+  sim::heap::set_placement(k.placement);
   sim::heap::arm(true);
 }
 
